@@ -1,10 +1,11 @@
 SPECIFICATION Spec
 CONSTANTS
-  Sel = {"esc", "dol1", "dol2", "til", "pg", "call"}
+  Sel = {"esc", "dol1", "dol2", "til", "pg", "call", "mix"}
   N = 6
   N1 = 5
   N2 = 3
   NCall = 5
+  NMix = 4
   Limit = 20479
   NameMax = 127
   AppName <- AppNameMC
